@@ -156,6 +156,14 @@ def gen_get() -> str:
             parts.append("connected")
         elif txt == "not proto.should_close":
             parts.append("(negb psc)")
+        elif txt == "proto.is_reusable()":
+            # ResponseHandler.is_reusable must be exactly `self.is_connected() and not self.should_close`
+            rf = core.find_function(PROTO, "is_reusable", cls="ResponseHandler")
+            rbody = [st for st in rf.body if not (isinstance(st, ast.Expr) and isinstance(st.value, ast.Constant))]
+            if len(rbody) != 1 or not isinstance(rbody[0], ast.Return) or \
+                    ast.unparse(rbody[0].value).replace("(", "").replace(")", "") != "self.is_connected and not self.should_close":
+                raise TranslatorError("is_reusable: expected `return self.is_connected() and not self.should_close`")
+            parts.append("(negb psc)")
         elif isinstance(v, ast.Compare) and len(v.ops) == 1 and ast.unparse(v.left) == "t1 - t0" \
                 and ast.unparse(v.comparators[0]) == "self._keepalive_timeout":
             op = {ast.LtE: "(age <=? keepalive)%Z", ast.Lt: "(age <? keepalive)%Z"}.get(type(v.ops[0]))
